@@ -218,8 +218,13 @@ def run(ctx: vlib.Ctx):
     active = [f for f in findings if f["id"] in open_ids]     # a class only suppresses while its witness still fails
 
     # -- histories: oracle on the real entry points + correspondence of applyRequest -------------
+    import time
+    t0 = time.time()
     cases = build_cases(ctx)
+    t1 = time.time()
     results = vlib.pmap(H.work_history, cases)
+    t2 = time.time()
+    ctx.extra["phase_seconds"] = {"build_cases": round(t1 - t0, 1), "histories": round(t2 - t1, 1)}
     reqs, idx = [], []
     for ci, (case, res) in enumerate(zip(cases, results)):
         impl = res.get("impl")
@@ -284,6 +289,8 @@ def run(ctx: vlib.Ctx):
                 ctx.corr_disagreements.append({"case": {"text": c["text"], "changes": c["requests"][0]["changes"]},
                                                "view": "AST after the CLI --changes loop", "model": rep["doc"], "impl": p["doc"]})
 
+    ctx.extra["phase_seconds"]["apply_correspondence"] = round(time.time() - t2, 1)
+    t3 = time.time()
     # -- constructed ASTs: emit correspondence, Absent at every site, prune spec -------------------
     n_docs = ctx.budget(250, 3000)
     docs = []
@@ -346,6 +353,7 @@ def run(ctx: vlib.Ctx):
         if r["status"] == "fail":
             ctx.failures.append({"case": case, **{k: v for k, v in r.items() if k != "status"}})
 
+    ctx.extra["phase_seconds"]["constructed_asts"] = round(time.time() - t3, 1)
     ctx.extra["known_finding_classes"] = {f["id"]: f["cls"] for f in findings}
     ctx.extra["translated"] = ["Gen/ChangeConsts (DELETE sentinel shape, META dispatch constants of _apply_changes and of the CLI loop)",
                                "Gen/AbsentSites (every emit_value/emit_assignment call of emitter.py with its is_absent guard verdict)"]
